@@ -268,9 +268,11 @@ class OpRunner(object):
         diag = []
         for t in world.tdir_ids():
             if world.tkind(t) == 't1':
-                p = os.fsencode(w.tpath(t))
-                if p in err or os.path.dirname(p) in err:
-                    diag.append(t)
+                # a report names the skipped directory ($topdir/.Trash/$uid) or its parent ($topdir/.Trash) as a whole path
+                for p in (os.fsencode(w.tpath(t)), os.path.dirname(os.fsencode(w.tpath(t)))):
+                    if re.search(re.escape(p) + rb'(?![A-Za-z0-9_./-])', err):
+                        diag.append(t)
+                        break
         obs = {'exit': runner.exit_class(res), 'lines': lines, 'diag': diag, 'unparsed': bad}
         return obs, res
 
@@ -399,20 +401,25 @@ class OpRunner(object):
                 cands[tp + b'/info/' + slot + b'.trashinfo'] = {'t': t, 'part': 'info', 'ref': ident}
             if kind in ('stray', 'junk'):
                 cands[tp + b'/info/' + slot + b'.trashinfo'] = {'t': t, 'part': 'info', 'ref': -ident}
+                cands[tp + b'/files/' + slot] = {'t': t, 'part': 'files', 'ref': -ident}
         out = []
         bad = []
-        pos = 0
+        # layout tolerant: a record names a path at its end; lines that name nothing inside a trash
+        # directory (prompts, headings) are ignored
         keys = sorted(cands, key=len, reverse=True)
+        marks = [os.fsencode(w.tpath(t)) for t in world.tdir_ids()]
+        pos = 0
         while pos < len(text):
             best = None
             for p in keys:
                 idx = text.find(p + b'\n', pos)
                 if idx != -1 and (best is None or idx < best[0] or (idx == best[0] and len(p) > len(best[1]))):
                     best = (idx, p)
+            seg_end = best[0] if best else len(text)
+            for line in text[pos:seg_end].split(b'\n')[:-1] if best else text[pos:].split(b'\n'):
+                if any(m + b'/files/' in line or m + b'/info/' in line for m in marks):
+                    bad.append(line[:200])
             if best is None:
-                rest = text[pos:].strip()
-                if rest:
-                    bad.append(rest[:200])
                 break
             out.append(cands[best[1]])
             pos = best[0] + len(best[1]) + 1
